@@ -64,6 +64,17 @@ def gen_rate(rng):
         if rng.random() < 0.7 else round(rng.uniform(1, 10), 4)
 
 
+def bisect(f, lo, hi, steps=220):
+    """root of a function that is positive at lo and not positive at hi"""
+    for _ in range(steps):
+        mid = (lo + hi) / 2
+        if f(mid) > 0:
+            lo = mid
+        else:
+            hi = mid
+    return (lo + hi) / 2
+
+
 def run(ctx):
     import mpmath
     from xlcalculator.xlfunctions import xl, func_xltypes as T
@@ -77,7 +88,8 @@ def run(ctx):
     def numval(got):
         return got[1][1] if got[0] == 'value' and got[1][0] == 'num' else None
 
-    def judge(name, desc, got, want, tol_abs, counter, nt, extra=None):
+    def judge(name, desc, got, want, tol_abs, counter, nt, extra=None,
+              kf=None):
         ctx.event(counter)
         ctx.case(nt)
         v = numval(got)
@@ -91,6 +103,7 @@ def run(ctx):
                                          'reference': want,
                                          'tolerance': tol_abs,
                                          **(extra or {})},
+                     kf=kf(got) if kf else None,
                      monitor='defining-equation',
                      group=f'{name}:{nt[1] if nt else ""}:{got[0]}:'
                            f'{got[1][0] if got[0] == "value" else got[1][:14]}')
@@ -243,6 +256,14 @@ def run(ctx):
             tot = sum(w)
             rets = [round(outlay * gain * x / tot, 2) for x in w]
             flows = [-outlay] + rets
+            if rng.random() < 0.3:
+                # back-loaded: nothing (or little) for a long time, then one
+                # large payoff: the root is a high rate
+                k = rng.choice([10, 20, 30])
+                rate_ = rng.choice([0.5, 1.0, 2.0, 3.0])
+                flows = [-outlay] + [rng.choice([0.0, 0.0, 1.0])
+                                     for _ in range(k - 2)] + \
+                    [round(outlay * (1 + rate_) ** (k - 1), 2)]
             if sum(flows) > 0:
                 def npv_at(x, flows=flows):
                     return sum(mp.mpf(c) / mp.power(1 + x, j)
@@ -250,8 +271,7 @@ def run(ctx):
                 lo_, hi_ = mp.mpf(0), mp.mpf(1)
                 while npv_at(hi_) > 0:
                     hi_ *= 2
-                root = mp.findroot(npv_at, (lo_, hi_), solver='bisect',
-                                   tol=1e-40, maxsteps=400)
+                root = bisect(npv_at, lo_, hi_)
                 got = monitors.call_outcome(F['IRR'], T.Array(
                     [[c] for c in flows]))
                 v = judge('IRR', f'IRR({flows})', got, float(root), 1e-6,
@@ -283,16 +303,19 @@ def run(ctx):
                     hi_ *= 2
                     guard += 1
                 if guard < 60 and hi_ < 1e6:
-                    xroot = mp.findroot(xnpv_at, (lo_, hi_), solver='bisect',
-                                        tol=1e-40, maxsteps=400)
+                    xroot = bisect(xnpv_at, lo_, hi_)
                     if float(xroot) <= 10:
                         got = monitors.call_outcome(
                             F['XIRR'], T.Array([[c] for c in flows]),
                             T.Array([[float(d)] for d in dts]))
+                        has_zero = any(c == 0 for c in flows)
                         judge('XIRR', f'XIRR({flows}, {dts})', got,
                               float(xroot), 1e-6, 'xirr_calls',
                               ('XIRR', len_class(k),
-                               rate_class(float(xroot))))
+                               rate_class(float(xroot)), has_zero),
+                              kf=(lambda g: 'KF-C20-02' if g == (
+                                  'value', ('err', '#NUM!')) else None)
+                              if has_zero else None)
                         if rng.random() < 0.3 and len(formulas) < 400:
                             formulas.append(('XIRR-range', None,
                                              (flows, dts), float(xroot),
@@ -320,5 +343,8 @@ def run(ctx):
                 text = f'=XIRR(A1:A{n_},B1:B{n_})'
         got = subject.eval_one(text, cells)
         ctx.event('formula_calls')
+        zero_x = kind == 'XIRR-range' and any(c == 0 for c in data[0])
         judge(kind, f'{text} over {cells}', got, want, tol, 'formula_calls',
-              (kind, 'formula', len_class(len(cells))))
+              (kind, 'formula', len_class(len(cells))),
+              kf=(lambda g: 'KF-C20-02' if g == ('value', ('err', '#NUM!'))
+                  else None) if zero_x else None)
